@@ -1,6 +1,7 @@
 package c07
 
 import (
+	"encoding/xml"
 	"fmt"
 	"math/rand"
 	"sort"
@@ -181,20 +182,63 @@ func (e *e2e) bucketCase(cl *s3c.Client, idx int, seed int64, fixed []string) {
 			body = make([]byte, r.Intn(41))
 			r.Read(body)
 		}
-		resp := cl.PutObject(bucket, k, body)
+		var resp *s3c.Resp
+		how := "PUT"
+		if !strings.HasSuffix(k, "/") && r.Intn(5) == 0 {
+			// the key is written by a multipart upload (created without naming a checksum algorithm) or by a copy:
+			// objects that come into being another way than PutObject are listed like any other
+			if r.Intn(3) > 0 {
+				how = "CreateMPU+UploadPart+Complete"
+				uid, cr := cl.CreateMPU(bucket, k)
+				resp = cr
+				if cr.OK() {
+					pr := cl.UploadPart(bucket, k, uid, 1, body)
+					resp = pr
+					if pr.OK() {
+						resp = cl.CompleteMPU(bucket, k, uid, []s3c.Part{{N: 1, ETag: pr.Header.Get("Etag")}})
+						if resp.OK() {
+							var cres struct{ ETag string }
+							xml.Unmarshal(resp.Body, &cres)
+							resp.Header.Set("ETag", cres.ETag)
+						} else {
+							cl.AbortMPU(bucket, k, uid)
+						}
+					}
+				}
+			} else {
+				how = "PUT+Copy"
+				src := "copy~source"
+				if sr := cl.PutObject(bucket, src, body); sr.OK() {
+					resp = cl.CopyObject(bucket, src, bucket, k)
+					if resp.OK() {
+						var cres struct{ ETag string }
+						xml.Unmarshal(resp.Body, &cres)
+						resp.Header.Set("ETag", cres.ETag)
+					}
+					cl.DeleteObject(bucket, src)
+				} else {
+					resp = sr
+				}
+			}
+			c.Add("e2e_keys_written_by_"+strings.ToLower(strings.SplitN(how, "+", 2)[0])+"_path", 1)
+		} else {
+			resp = cl.PutObject(bucket, k, body)
+		}
 		if resp.Err != nil {
-			if !e.dead(id, "PUT "+k) {
+			if !e.dead(id, how+" "+k) {
 				c.Inconclusive("transport error during upload")
 			}
 			return
 		}
-		ups = append(ups, upload{Key: k, Size: len(body), Status: resp.Status, Code: resp.ErrCode(), Op: "PUT"})
+		ups = append(ups, upload{Key: k, Size: len(body), Status: resp.Status, Code: resp.ErrCode(), Op: how})
 		if !resp.OK() {
 			c.Observe(fmt.Sprintf("e2e: upload refused (%d %s) - key kept out of the reference", resp.Status, resp.ErrCode()))
 			continue
 		}
 		et := resp.Header.Get("ETag")
-		if et != `"`+s3c.MD5Hex(body)+`"` {
+		if how != "PUT" {
+			// (multipart ETag / copy result: taken from the answer)
+		} else if et != `"`+s3c.MD5Hex(body)+`"` {
 			if strings.HasSuffix(k, "/") && et == s3c.MD5Hex(body) {
 				c.Observe("e2e: PUT of a directory object answers an unquoted ETag")
 			} else {
